@@ -240,6 +240,102 @@ void h_force_abandon(void) {
 }
 #endif
 
+#ifdef HARNESS_h_heap_destroy
+/* C10: mi_heap_destroy releases every page of that heap exactly once and nothing else (pages of the backing heap stay), resets
+   the heap, unlinks it from the thread's heap list, moves the default heap to the backing heap, and frees the descriptor last;
+   a heap that was not created destroyable (no_reclaim == false: it may hold adopted pages with other threads' live blocks)
+   is deleted (migrated) instead.  Page release into the segment layer is a recording stub (decided by C01.page_free_full). */
+static size_t freed_mask; static int n_page_free, n_desc_free, n_delete, desc_free_at, last_page_free_at;
+void _mi_segment_page_free(mi_page_t* page, bool force, mi_segments_tld_t* tld) {
+  int k = -1; for (int i = 0; i < NP; i++) if (page == &PA[i]) k = i;
+  CHECK(k >= 0, "C10: only pages of the destroyed heap are released (nothing of another heap)");
+  if (k >= 0) { CHECK((freed_mask & ((size_t)1 << k)) == 0, "C10: no page is released twice"); freed_mask |= (size_t)1 << k; }
+  CHECK(page->used == 0 && page->next == NULL && page->prev == NULL, "a destroyed page is handed over unlinked and counted empty");
+  CHECK(mi_page_thread_free_flag(page) == MI_NEVER_DELAYED_FREE, "C10: no remote free can be queued on the heap any more (NEVER_DELAYED_FREE) when its page is released");
+  n_page_free++; last_page_free_at = ++order_ctr;
+}
+void mi_free(void* p) mi_attr_noexcept { CHECK(p == (void*)&A, "only the descriptor of the destroyed heap is freed"); n_desc_free++; desc_free_at = ++order_ctr; }
+void stub_heap_delete(mi_heap_t* h) { CHECK(h == &A, "this heap"); n_delete++; }
+void _mi_prim_thread_associate_default_heap(mi_heap_t* heap) { }      /* pthread key bookkeeping of the platform layer */
+void h_heap_destroy(void) {
+  make_heaps();
+  A.no_reclaim = nd_bool(); B.no_reclaim = false;
+  bool a_first = nd_bool();                         /* position of A in the thread's heap list (the backing heap is always on it) */
+  static mi_heap_t C; C.tld = &TLD; C.thread_id = verif_tid();
+  if (a_first) { TLD.heaps = &A; A.next = &C; C.next = &B; B.next = NULL; } else { TLD.heaps = &C; C.next = &A; A.next = &B; B.next = NULL; }
+  bool a_default = nd_bool(); _mi_heap_default = a_default ? &A : &B;
+  size_t b0 = B.page_count;
+  mi_heap_destroy(&A);
+  if (!A.no_reclaim) {
+    CHECK(n_delete == 1 && n_page_free == 0 && n_desc_free == 0, "C10: a heap that may hold adopted pages is migrated, never destroyed");
+    WITNESS("not destroyable");
+    return;
+  }
+  CHECK(n_delete == 0 && freed_mask == (((size_t)1 << NP) - 1) && n_page_free == NP, "C10: every page of the destroyed heap is released exactly once");
+  CHECK(A.page_count == 0 && A.pages[BIN].first == NULL && A.pages[BIN].last == NULL && A.pages[MI_BIN_FULL].first == NULL && A.pages[MI_BIN_FULL].last == NULL, "the destroyed heap holds no pages");
+  { mi_page_t* d = A.pages_free_direct[_mi_wsize_from_size(QBS)]; CHECK(d == NULL || d == (mi_page_t*)&_mi_page_empty, "no stale direct pointer to a released page"); }
+  CHECK(B.page_count == b0, "C10: the backing heap keeps its pages");
+  for (int i = 0; i < 2; i++) if (b_has[i]) CHECK(mi_page_heap(&PB[i]) == &B && in_queue(i == 1 ? &B.pages[MI_BIN_FULL] : &B.pages[BIN], &PB[i]) && PB[i].used == 4, "C10: pages of other heaps are untouched");
+  CHECK(TLD.heaps == &C && C.next == &B && B.next == NULL, "the destroyed heap is unlinked from the thread's heap list, the others stay");
+  CHECK(_mi_heap_default == &B, "C10: the default heap falls back to the backing heap");
+  CHECK(n_desc_free == 1 && desc_free_at > last_page_free_at, "the descriptor is freed once, after its pages");
+  WITNESS("destroyed");
+  if (a_default) WITNESS("was default");
+}
+#endif
+
+#ifdef HARNESS_h_heap_delete
+/* C10: mi_heap_delete keeps every live block valid: pages go to the backing heap exactly when the two heaps store the same kind of
+   objects in the same arena (mi_heap_absorb: C10.heap_absorb), otherwise they are abandoned for later adoption
+   (_mi_heap_collect_abandon: C09.collect_abandon); never both, never neither; then the heap is unlinked and its descriptor freed;
+   the backing heap itself is never freed. */
+static int n_absorb, n_abandon, n_desc_free, step_ctr, moved_at, freed_at;
+void stub_heap_absorb(mi_heap_t* to, mi_heap_t* from) { CHECK(to == &B && from == &A, "pages go from the deleted heap to the backing heap"); n_absorb++; moved_at = ++step_ctr; from->page_count = 0; }
+void stub_collect_abandon(mi_heap_t* h) { n_abandon++; moved_at = ++step_ctr; h->page_count = 0; }
+void mi_free(void* p) mi_attr_noexcept { n_desc_free++; freed_at = ++step_ctr; CHECK(p == (void*)&A, "only the deleted heap's descriptor is freed"); }
+void _mi_prim_thread_associate_default_heap(mi_heap_t* heap) { }
+void h_heap_delete(void) {
+  make_heaps();
+  A.tag = nd_u8() & 1; B.tag = nd_u8() & 1; A.arena_id = nd_u8() & 1; B.arena_id = nd_u8() & 1;
+  TLD.heaps = &A; A.next = &B; B.next = NULL;
+  bool a_default = nd_bool(); _mi_heap_default = a_default ? &A : &B;
+  bool del_backing = nd_bool();
+  mi_heap_delete(del_backing ? &B : &A);
+  if (del_backing) {
+    CHECK(n_absorb == 0 && n_abandon == 1 && n_desc_free == 0, "C10: deleting the backing heap abandons its pages and keeps the heap");
+    CHECK(TLD.heaps == &A && A.next == &B, "heap list unchanged");
+    WITNESS("backing");
+    return;
+  }
+  bool compat = (A.tag == B.tag && A.arena_id == B.arena_id);
+  CHECK(n_absorb == (compat ? 1 : 0) && n_abandon == (compat ? 0 : 1), "C10: live pages are migrated to a compatible backing heap, otherwise abandoned (never dropped, never both)");
+  CHECK(n_desc_free == 1 && freed_at > moved_at, "the descriptor is freed once, after its pages were handed over");
+  CHECK(TLD.heaps == &B && B.next == NULL, "the deleted heap is unlinked from the thread's heap list");
+  CHECK(_mi_heap_default == &B, "C10: the default heap falls back to the backing heap");
+  if (compat) WITNESS("absorbed"); else WITNESS("abandoned");
+}
+#endif
+
+#ifdef HARNESS_h_check_owned
+/* C10: mi_heap_check_owned attributes an address to exactly the heap whose page area contains it */
+static uint8_t AREAS[NP + 2][4 * QBS];
+void h_check_owned(void) {
+  make_heaps();
+  for (int i = 0; i < NP; i++) PA[i].page_start = AREAS[i];
+  for (int i = 0; i < 2; i++) PB[i].page_start = AREAS[NP + i];
+  size_t k = nd_size(); ASSUME(k < NP + 2 && (k < NP || b_has[k - NP]));
+  size_t off = nd_size(); ASSUME(off < 4 * QBS);
+  void* p = &AREAS[k][off];
+  bool inA = mi_heap_check_owned(&A, p), inB = mi_heap_check_owned(&B, p);
+  bool aligned = (off % MI_INTPTR_SIZE) == 0;
+  CHECK(inA == (aligned && k < NP), "C10: an (aligned) address inside a page of the heap is owned by it, and by no other heap");
+  CHECK(inB == (aligned && k >= NP), "C10: ... likewise for the backing heap");
+  CHECK(!(inA && inB), "C10: never attributed to two heaps");
+  CHECK(!mi_heap_check_owned(&A, (void*)&TLD) && !mi_heap_check_owned(&B, NULL), "addresses outside every page are owned by no heap");
+  if (inA) WITNESS("in A"); if (inB) WITNESS("in B");
+}
+#endif
+
 #ifdef VERIF_REPLAY
 int main(void) { VERIF_ENTRY(); return 0; }
 #endif
